@@ -28,6 +28,11 @@ func TestMain(m *testing.M) { ev.Main(m) }
 type setting struct {
 	name string
 	mk   func(cells int) func(s sdf.SDF3) []*sdf.Triangle3
+	// eps: the absolute accuracy to which this renderer locates the surface on a cell edge (V2 marches a
+	// ray until the value is below its RaycastEpsilon setting, 1e-4 here; V1 interpolates: 0). A vertex may
+	// be a few times that much farther from the surface than the cell diagonal (3x is allowed; the QEF amplifies
+	// the error of near-tangent crossings), and cells smaller than 100x that accuracy are not rendered at all.
+	eps float64
 }
 
 func (st setting) run(s sdf.SDF3, cells int) []*sdf.Triangle3 { return st.mk(cells)(s) }
@@ -77,12 +82,14 @@ func mkV2(mk func(cells int) *dc.DualContouringV2) func(cells int) func(s sdf.SD
 }
 
 var settings = []setting{
-	{"V1(rcond=default,lock=true)", mkV1(0, true)},
-	{"V1(rcond=0.1,lock=true)", mkV1(0.1, true)},
-	{"V1(rcond=1e-5,lock=true)", mkV1(1e-5, true)},
-	{"V1(rcond=1e-8,lock=true)", mkV1(1e-8, true)},
-	{"V2(default)", mkV2(func(c int) *dc.DualContouringV2 { return dc.NewDualContouringDefault(c) })},
-	{"V2(faraway=0.4,push=0.05)", mkV2(func(c int) *dc.DualContouringV2 { return dc.NewDualContouringV2(0.4, 0.05, 0, 1, 1e-4, 1000, c) })},
+	{"V1(rcond=default,lock=true)", mkV1(0, true), 0},
+	{"V1(rcond=0.1,lock=true)", mkV1(0.1, true), 0},
+	{"V1(rcond=1e-5,lock=true)", mkV1(1e-5, true), 0},
+	{"V1(rcond=1e-8,lock=true)", mkV1(1e-8, true), 0},
+	{"V2(default)", mkV2(func(c int) *dc.DualContouringV2 { return dc.NewDualContouringDefault(c) }), 1e-4},
+	{"V2(faraway=0.4,push=0.05)", mkV2(func(c int) *dc.DualContouringV2 { return dc.NewDualContouringV2(0.4, 0.05, 0, 1, 1e-4, 1000, c) }), 1e-4},
+	{"V2(faraway=0.499999,push=0)", mkV2(func(c int) *dc.DualContouringV2 { return dc.NewDualContouringV2(0.499999, 0, 0, 1, 1e-4, 1000, c) }), 1e-4},
+	{"V2(faraway=0.3,push=1e-4)", mkV2(func(c int) *dc.DualContouringV2 { return dc.NewDualContouringV2(0.3, 1e-4, 0, 1, 1e-4, 1000, c) }), 1e-4},
 }
 
 func sameSeq(a, b []*sdf.Triangle3) bool {
@@ -220,6 +227,13 @@ func TestDualContouring(t *testing.T) {
 		}
 		rs := lat.Rebox3{S: s, BB: nb}
 		h := nb.Size().MaxComponent() / float64(cells)
+		if h < 100*st.eps {
+			// the cell is not large against the accuracy this setting locates the surface with (the
+			// absolute RaycastEpsilon of V2): models in units that small are outside the domain (DESIGN 8.9)
+			rec.Count("discarded:cell-smaller-than-100x-raycast-epsilon", 1)
+			rec.Case(false, "", "dc:cell-too-small-for-raycast-epsilon")
+			return
+		}
 		diag := math.Sqrt(3) * h
 		// resolved solids only: some lattice node is at least one cell diagonal deep inside the solid
 		// (a sheet thinner than a cell gets one vertex for both of its sides and collapses to zero volume)
@@ -286,7 +300,7 @@ func TestDualContouring(t *testing.T) {
 					d = math.Abs(s.Evaluate(v)) * math.Min(1, minScale)
 				}
 				worst = math.Max(worst, d)
-				if d > diag*(1+1e-9) {
+				if d > diag*(1+1e-9)+3*st.eps {
 					fail("vertex-farther-than-a-cell-diagonal", fmt.Sprintf("vertex %v is at least %v from the surface (cell diagonal %v)", v, d, diag))
 				}
 			}
@@ -321,6 +335,32 @@ func TestRegress(t *testing.T) {
 		rec.Case(true, "regress:"+st.name, "regress")
 		if r.OpenEdges > 0 {
 			rec.FailCase(t, "TestRegress", "DualContouring:open-edge", map[string]any{"setting": st.name}, "%s: revolved capsule at 6 cells: %d unmatched directed edges (%d triangles)", st.name, r.OpenEdges, r.Tris)
+		}
+	}
+	// spheres far from the origin (fix 70c7cd0: V2 set up its least squares system in absolute
+	// coordinates and lost the vertex position with a weak centre push)
+	for _, fc := range []struct {
+		c     v3.Vec
+		r, hb float64
+		cells int
+	}{
+		{v3.Vec{X: -999999.9999999995, Y: -100000.00000000001, Z: 1000}, 0.223606797749979, 0.2973042736, 17},
+		{v3.Vec{X: -584862.7166169194 - 2, Y: -116521.5491703222 + 1.6601104736328125, Z: -112530.31413999984 - 0.25}, 0.1063709825340501, 0.1205398166, 24},
+	} {
+		sp, _ := sdf.Sphere3D(fc.r)
+		fs := lat.Rebox3{S: sdf.Transform3D(sp, sdf.Translate3d(fc.c)), BB: sdf.Box3{Min: fc.c.SubScalar(fc.hb), Max: fc.c.AddScalar(fc.hb)}}
+		diag := math.Sqrt(3) * 2 * fc.hb / float64(fc.cells)
+		for _, st := range settings {
+			worst := 0.0
+			for _, tr := range st.run(fs, fc.cells) {
+				for _, v := range tr {
+					worst = math.Max(worst, math.Abs(v.Sub(fc.c).Length()-fc.r))
+				}
+			}
+			rec.Case(true, "regress:far:"+st.name+fmt.Sprint(fc.cells), "regress")
+			if worst > diag*(1+1e-9)+3*st.eps {
+				rec.FailCase(t, "TestRegress", "DualContouring:vertex-farther-than-a-cell-diagonal", map[string]any{"setting": st.name, "centre": fc.c}, "%s: sphere of radius %v at %v, %d cells: a vertex is %v from the surface (cell diagonal %v)", st.name, fc.r, fc.c, fc.cells, worst, diag)
+			}
 		}
 	}
 }
